@@ -134,7 +134,10 @@ fn main() {
                     "C20" => c17::generate_c20(&mut rng, &tier, &mut emit),
                     "C08" => c08::generate(&mut rng, &tier, &mut emit),
                     "C16" => c16::generate(&mut rng, &tier, &mut emit),
-                    "C18" => c18::generate(&mut rng, &tier, &mut emit),
+                    "C18" => {
+                        c18::generate(&mut rng, &tier, &mut emit);
+                        c18::generate_daemon(&mut rng, &tier, &mut emit);
+                    }
                     _ => {
                         eprintln!("unknown property {}", prop);
                         std::process::exit(2);
